@@ -10,6 +10,17 @@ use std::sync::OnceLock;
 
 pub struct C16;
 
+/// This check is cheap: the quick tier already runs the full alphabet (what used to be the
+/// thorough tier); `deep` marks the extras that only the thorough tier adds.
+#[allow(dead_code)]
+fn full(_t: Tier) -> bool {
+    true
+}
+#[allow(dead_code)]
+fn deep(t: Tier) -> bool {
+    t == Tier::Thorough
+}
+
 #[derive(Clone, Debug)]
 struct Case {
     class: String,
@@ -33,7 +44,7 @@ fn offending(tier: Tier) -> Vec<(String, Vec<String>, Vec<u8>)> {
         ("host", "Host", "x", SMUGGLED.to_vec()),
         ("other", "X-A", "b", SMUGGLED.to_vec()),
     ];
-    let wss: Vec<(&str, &str)> = if tier == Tier::Thorough { vec![("sp", " "), ("tab", "\t")] } else { vec![("sp", " ")] };
+    let wss: Vec<(&str, &str)> = if full(tier) { vec![("sp", " "), ("tab", "\t")] } else { vec![("sp", " ")] };
     for (hc, name, val, after) in &headers {
         for (_wn, ws) in &wss {
             let mid = name.len() / 2;
@@ -90,7 +101,7 @@ fn offending(tier: Tier) -> Vec<(String, Vec<String>, Vec<u8>)> {
             vec![line.clone(), "Transfer-Encoding: chunked".to_string()],
             after_chunked.clone(),
         ));
-        if tier == Tier::Thorough {
+        if full(tier) {
             v.push((
                 format!("content-length-invalid-with-chunked:{}", vc),
                 vec!["Transfer-Encoding: chunked".to_string(), line.clone()],
@@ -105,11 +116,11 @@ fn offending(tier: Tier) -> Vec<(String, Vec<String>, Vec<u8>)> {
 fn cases(tier: Tier) -> &'static Vec<Case> {
     static Q: OnceLock<Vec<Case>> = OnceLock::new();
     static T: OnceLock<Vec<Case>> = OnceLock::new();
-    let cell = if tier == Tier::Quick { &Q } else { &T };
+    let cell = if !full(tier) { &Q } else { &T };
     cell.get_or_init(|| {
         let mut v = Vec::new();
         for (class, lines, follow) in offending(tier) {
-            for before in 0..(if tier == Tier::Thorough { 3 } else { 2 }) {
+            for before in 0..(if full(tier) { 3 } else { 2 }) {
                 let mut bytes = Vec::new();
                 for i in 0..before {
                     bytes.extend_from_slice(&get(&format!("/ok{}", i)));
@@ -193,7 +204,7 @@ impl Check for C16 {
         let classes: std::collections::BTreeSet<String> = offending(tier).into_iter().map(|o| o.0).collect();
         format!(
             "headers Content-Length / Transfer-Encoding / Host / X-A with SP{} inserted before the name, inside it, or before the colon, alone, after another header (obsolete line-folding shape) and with a framing companion; Content-Length values {{empty, +5, -5, -0, 5a, a5, 0x5, '5 5', '5,5', '5, 5', 5.0, abc, 2^64, 30 nines}} with and without a chunked companion; each at position 1..{} of a pipeline and followed by bytes arranged so that every possible misreading finds the request `GET /smuggled`; {} conversations in {} classes; expected: earlier answers, then 400 and end-of-stream, neither the offending request nor `GET /smuggled` delivered",
-            if tier == Tier::Thorough { "/HTAB" } else { "" }, if tier == Tier::Thorough { 3 } else { 2 }, cases(tier).len(), classes.len()
+            if full(tier) { "/HTAB" } else { "" }, if full(tier) { 3 } else { 2 }, cases(tier).len(), classes.len()
         )
     }
     fn replay(&self, replay: &Value, acc: &mut Acc) {
